@@ -164,7 +164,7 @@ theorem C11_frame (W : World) (hW : W.NoSet) (B n : Nat) (st : St) (b : Block) (
 /-- **Lookup before load.**  If the first candidate context name that is registered with a module object maps to
 `i`, `module_import` returns that module object and changes nothing (no load, no new context, no registry change). -/
 theorem C11_singleton_lookup (W : World) (n : Nat) (st : St) (m : Name) (lvl : Nat) (cds : List Cand) (i : Nat)
-    (hcd : candidates (selfCtx st.h st.p.gctx) m lvl = .ok cds) (hf : findLoaded st.h cds = some i) :
+    (hcd : candidates W.cfg (selfCtx st.h st.p.gctx) m lvl = .ok cds) (hf : findLoaded st.h cds = some i) :
     importMod W (n+1) st m lvl = ⟨st, .ok (some i)⟩ := by
   simp only [importMod, importLookup, hcd, hf]
 
@@ -189,7 +189,7 @@ theorem C11_singleton (W : World) (k : Name) (i n : Nat) (st : St) (b : Block) (
 candidates are named `k` (from any importing context) returns module `i` again and leaves the state untouched. -/
 theorem C11_singleton_again (W : World) (k : Name) (i n n' : Nat) (st : St) (b : Block) (hr : Reg k i st.h)
     (m : Name) (lvl : Nat) (cds : List Cand) (hne : cds ≠ [])
-    (hcd : candidates (selfCtx (execBlock W n st b).st.h (execBlock W n st b).st.p.gctx) m lvl = .ok cds)
+    (hcd : candidates W.cfg (selfCtx (execBlock W n st b).st.h (execBlock W n st b).st.p.gctx) m lvl = .ok cds)
     (hk : ∀ cd ∈ cds, cd.ctxName = k) :
     importMod W (n'+1) (execBlock W n st b).st m lvl = ⟨(execBlock W n st b).st, .ok (some i)⟩ :=
   C11_singleton_lookup W n' _ m lvl cds i hcd (C11_singleton_found _ cds k i hne hk (C11_singleton W k i n st b hr).1)
@@ -216,25 +216,28 @@ theorem C11_singleton_registered (W : World) (n : Nat) (st : St) (m : Name) (lvl
 /-- **One context per module name (absolute imports, importer outside `apps/`)**: the context name depends on the
 module name only, not on who imports – so all such importers share one module object (`_partial`: relative imports
 do not have this property, see `C11_singleton_relative_cex`). -/
-theorem C11_singleton_absolute_partial (self : Ctx) (m : Name) (happs : isAppsRel self.rel = false) :
-    ∃ cds, candidates self m 0 = .ok cds ∧ cds ≠ [] ∧ ∀ cd ∈ cds, cd.ctxName = "modules" :: m := by
+theorem C11_singleton_absolute_partial (cfg : Cfg) (self : Ctx) (m : Name) (happs : isAppsRel self.rel = false) :
+    ∃ cds, candidates cfg self m 0 = .ok cds ∧ cds ≠ [] ∧ ∀ cd ∈ cds, cd.ctxName = "modules" :: m := by
   refine ⟨_, by simp only [candidates, Nat.lt_irrefl, if_false, happs]; rfl, by simp, ?_⟩
   intro cd hcd
   simp only [Bool.false_eq_true, if_false, List.nil_append, List.mem_cons, List.mem_nil_iff, or_false] at hcd
   rcases hcd with rfl | rfl <;> rfl
 
-/-- **Finding C11-F1 (witness).**  `apps/app1/__init__.py` and `apps/app1/helper.py` both execute
-`from . import other`: the same file `apps/app1/other` is looked up under two different context names
-(`apps.app1.other` vs `apps.app1.helper.other`), hence loaded twice – two module objects. -/
-theorem C11_singleton_relative_cex :
-    candidates { name := ["apps", "app1"], rel := some ["apps", "app1", "__init__"], hasModule := false } ["other"] 1
+/-- **C11-F1 repaired (witness, both shapes).**  `apps/app1/__init__.py` and `apps/app1/helper.py` both execute
+`from . import other`.  Current code: both look the file `apps/app1/other` up under the ONE context name
+`apps.app1.other`.  Shape before the repair (regression witness): the submodule used `apps.app1.helper.other`, so the same
+file was loaded twice – two module objects. -/
+theorem C11_regress_relative_submodule :
+    candidates Cfg.current { name := ["apps", "app1"], rel := some ["apps", "app1", "__init__"], hasModule := false } ["other"] 1
       = .ok [⟨["apps", "app1", "other"], ["apps", "app1", "other", "__init__"], some ["apps", "app1", "other"]⟩,
              ⟨["apps", "app1", "other"], ["apps", "app1", "other"], some ["apps", "app1"]⟩] ∧
-    candidates { name := ["apps", "app1", "helper"], rel := some ["apps", "app1"], hasModule := true } ["other"] 1
+    candidates Cfg.current { name := ["apps", "app1", "helper"], rel := some ["apps", "app1"], hasModule := true } ["other"] 1
+      = .ok [⟨["apps", "app1", "other"], ["apps", "app1", "other", "__init__"], some ["apps", "app1", "other"]⟩,
+             ⟨["apps", "app1", "other"], ["apps", "app1", "other"], some ["apps", "app1"]⟩] ∧
+    candidates Cfg.preFix { name := ["apps", "app1", "helper"], rel := some ["apps", "app1"], hasModule := true } ["other"] 1
       = .ok [⟨["apps", "app1", "helper", "other"], ["apps", "app1", "other", "__init__"], some ["apps", "app1", "other"]⟩,
              ⟨["apps", "app1", "helper", "other"], ["apps", "app1", "other"], some ["apps", "app1"]⟩] := by
-  constructor <;> rfl
-
+  refine ⟨by rfl, by rfl, by rfl⟩
 
 /-! ## witnesses of the findings that concern interleaving and cycles -/
 
@@ -317,17 +320,59 @@ example : Reg ["modules", "m1"] 1 (importMod raceW 10 ⟨raceH, fresh 0⟩ ["m1"
   constructor <;> rfl
 
 
-/-- **Finding C11-F4 (witness).**  The file `modules/pkg/sub.py` reached by its absolute dotted name gets
-`rel_import_path = None`, and a relative import executed in such a context raises ImportError; reached by a relative
-import from the package it gets `modules/pkg` and relative imports work. -/
-theorem C11_relative_dotted_cex :
-    candidates { name := ["file", "a"], rel := none, hasModule := false } ["pkg", "sub"] 0
+/-- **C11-F4 repaired (witness, both shapes).**  The file `modules/pkg/sub.py` reached by its absolute dotted name now
+gets `rel_import_path = modules/pkg`, the same as when it is reached by a relative import from the package, and a
+relative import executed in it resolves inside the package.  Shape before the repair (regression witness): it got
+`None` and the relative import raised ImportError. -/
+theorem C11_regress_relative_dotted :
+    candidates Cfg.current { name := ["file", "a"], rel := none, hasModule := false } ["pkg", "sub"] 0
+      = .ok [⟨["modules", "pkg", "sub"], ["modules", "pkg", "sub", "__init__"], some ["modules", "pkg", "sub"]⟩,
+             ⟨["modules", "pkg", "sub"], ["modules", "pkg", "sub"], some ["modules", "pkg"]⟩] ∧
+    candidates Cfg.current { name := ["modules", "pkg"], rel := some ["modules", "pkg"], hasModule := true } ["sub"] 1
+      = .ok [⟨["modules", "pkg", "sub"], ["modules", "pkg", "sub", "__init__"], some ["modules", "pkg", "sub"]⟩,
+             ⟨["modules", "pkg", "sub"], ["modules", "pkg", "sub"], some ["modules", "pkg"]⟩] ∧
+    candidates Cfg.current { name := ["modules", "pkg", "sub"], rel := some ["modules", "pkg"], hasModule := true } ["sib"] 1
+      = .ok [⟨["modules", "pkg", "sib"], ["modules", "pkg", "sib", "__init__"], some ["modules", "pkg", "sib"]⟩,
+             ⟨["modules", "pkg", "sib"], ["modules", "pkg", "sib"], some ["modules", "pkg"]⟩] ∧
+    candidates Cfg.preFix { name := ["file", "a"], rel := none, hasModule := false } ["pkg", "sub"] 0
       = .ok [⟨["modules", "pkg", "sub"], ["modules", "pkg", "sub", "__init__"], some ["modules", "pkg", "sub"]⟩,
              ⟨["modules", "pkg", "sub"], ["modules", "pkg", "sub"], none⟩] ∧
-    candidates { name := ["modules", "pkg", "sub"], rel := none, hasModule := true } ["sib"] 1 = .error .importErr ∧
-    candidates { name := ["modules", "pkg"], rel := some ["modules", "pkg"], hasModule := true } ["sub"] 1
-      = .ok [⟨["modules", "pkg", "sub"], ["modules", "pkg", "sub", "__init__"], some ["modules", "pkg", "sub"]⟩,
-             ⟨["modules", "pkg", "sub"], ["modules", "pkg", "sub"], some ["modules", "pkg"]⟩] := by
-  refine ⟨by rfl, by rfl, by rfl⟩
+    candidates Cfg.preFix { name := ["modules", "pkg", "sub"], rel := none, hasModule := true } ["sib"] 1 = .error .importErr := by
+  refine ⟨by rfl, by rfl, by rfl, by rfl, by rfl⟩
+
+/-! ## `from m import *` and `__all__` (C11-F6 repaired) -/
+
+/-- the importing file of the witness: `y = 100`; the module: `x = 1; y = 2; _p = 3; __all__ = ['x', '_p']` -/
+def starSt : St :=
+  ⟨{ ctxs := [⟨["file", "a"], none, false⟩, ⟨["modules", "m1"], none, true⟩],
+     tabs := fun c => if c = 1 then [("x", .int 1), ("y", .int 2), ("_p", .int 3), ("__all__", .names ["x", "_p"])]
+                      else [("y", .int 100)],
+     reg := [(["file", "a"], 0), (["modules", "m1"], 1)] }, fresh 0⟩
+
+/-- **C11-F6 repaired (witness, both shapes).**  Current code: `from m1 import *` binds exactly the names of `__all__`
+(`x` and the private `_p`), the importer's own `y` survives.  Shape before the repair (regression witness): `y` was
+overwritten by the module's `y` and `_p` was not imported. -/
+theorem C11_regress_star_ignores_all :
+    ((bindStarC Cfg.current starSt 1).1.h.tab 0 = [("y", .int 100), ("x", .int 1), ("_p", .int 3)] ∧
+     (bindStarC Cfg.current starSt 1).2 = none) ∧
+    ((bindStarC Cfg.preFix starSt 1).1.h.tab 0 = [("y", .int 2), ("x", .int 1)]) := by
+  refine ⟨⟨by rfl, by rfl⟩, ?_⟩
+  simp [bindStarC, starNames, Cfg.preFix, starSt, bindStar, isPublic, writeSym, fresh, Heap.tab, Heap.setKey,
+    Heap.setTab, tset]
+
+/-- **`*` means `__all__`.**  In the current code, when the module has a list-valued `__all__`, `from m import *` is
+exactly `from m import n1, n2, …` for the names of that list, in that order – for every state and every module table;
+in particular a listed name the module lacks raises AttributeError as `getattr` does. -/
+theorem C11_star_is_all (st : St) (c : Nat) (l : List String) (h : allOf (st.h.tab c) = some l) :
+    bindStarC Cfg.current st c = bindFrom st c (l.map (fun n => (n, none))) := by
+  simp only [bindStarC, starNames, Cfg.current, if_true, h]
+
+example : allOf (starSt.h.tab 1) = some ["x", "_p"] := rfl
+
+/-- a module without a list-valued `__all__` exports every name that does not start with `_` (both shapes) -/
+theorem C11_star_without_all (cfg : Cfg) (st : St) (c : Nat) (h : allOf (st.h.tab c) = none) :
+    bindStarC cfg st c = (bindStar st (st.h.tab c), none) := by
+  have e : starNames cfg (st.h.tab c) = none := by simp only [starNames, h]; split <;> rfl
+  simp only [bindStarC, e]
 
 end PsModel.C11
